@@ -236,7 +236,7 @@ static void family_tasks(std::vector<Task>& tasks, const Config& cfg, const std:
   const bool is_req = fam.find("req") == 0;
   if (is_req) for (int si = 0; si < 3; ++si) {
     const char* shp[] = {"sorted", "zigzag", "mixed"};
-    QuantSys<Fam> sys; const int ln = cfg.quick() ? (si == 2 ? 280 : 460) : 900; sys.nm = tag + "/long-smalldomain-" + shp[si] + "/n" + str(ln); sys.slot_cfgs.push_back(base); sys.light_check = true; sys.check_published = true;
+    QuantSys<Fam> sys; const int ln = cfg.quick() ? (si == 2 ? 280 : 460) : (si == 0 ? 900 : si == 1 ? 700 : 500);   // sized so that each completes within the tier budget on the idle machine sys.nm = tag + "/long-smalldomain-" + shp[si] + "/n" + str(ln); sys.slot_cfgs.push_back(base); sys.light_check = true; sys.check_published = true;
     std::vector<std::string> dn; distinct_domain(sys, 6, dn); sys.add_update_ops(0, false);
     std::vector<int> ix = shape_idx(shp[si], ln); std::vector<std::string> seq; for (int i = 0; i < ln; ++i) seq.push_back("U0:" + dn[(size_t)((long long)ix[i] * 6 / ln)]);
     Task t; t.name = sys.nm; t.fn = [sys, seq, &cfg](Report& rep) { live_history<Fam>(sys, seq, 0, 20, rep, cfg); }; tasks.push_back(t);
@@ -408,7 +408,7 @@ int main(int argc, char** argv) {
     } }
   for (int h = 0; h < 2; ++h) for (int ic = 0; ic < 1; ++ic) { typedef ReqFam<float, std::less<float> > F;
     Cfg c; c.k = 4; c.hra = h == 1; c.init_coin = ic; std::vector<Cfg> oc; oc.push_back(c); Cfg c2 = c; c2.k = 6; oc.push_back(c2);
-    family_tasks<F>(tasks, cfg, "req-float", c, oc, q ? 26 : 30, q ? 160 : 320, 24, q ? 30 : 50, q ? 200 : 420); }
+    family_tasks<F>(tasks, cfg, "req-float", c, oc, q ? 26 : 30, q ? 160 : 320, 24, q ? 30 : 50, q ? 200 : 320); }
   { typedef ClassicFam<int, std::less<int> > F; Cfg c; c.k = 2; std::vector<Cfg> oc; oc.push_back(c); Cfg c2; c2.k = 4; oc.push_back(c2); c2.k = 8; if (!q) oc.push_back(c2);
     family_tasks<F>(tasks, cfg, "classic-int", c, oc, q ? 10 : 14, q ? 30 : 48, 5, q ? 9 : 13, q ? 40 : 60);
     // larger k merged into smaller k exercises the down-sampling merge (raw uniform offset): base k=4 with k=2 operand and vice versa
